@@ -672,6 +672,37 @@ pub fn directed() -> Vec<Doc> {
             );
         }
     }
+    // two faults in one chunk: a size, length, count or offset field made huge (which lifts the
+    // bound of whatever loop it controls) together with every table value of every other field of
+    // that chunk (which may keep that loop from making progress)
+    let chunk_of = |n: &str| n.split('.').next().unwrap_or("").to_string();
+    for f1 in &enc.fields {
+        let sizey = ["size", "len", "number", "delete", "offset"].iter().any(|k| f1.name.contains(k));
+        if !sizey || f1.width < 2 {
+            continue;
+        }
+        let large = if f1.width >= 4 { 0x7FFF_FFFFu64 } else { 0x7FFF };
+        for f2 in &enc.fields {
+            if f2.off == f1.off || chunk_of(&f1.name) != chunk_of(&f2.name) {
+                continue;
+            }
+            let orig = damage::read_field(&enc.bytes, f2);
+            for v in damage::field_values(orig, f2.width) {
+                push(
+                    C17Doc::Patch {
+                        base: small.clone(),
+                        damage: vec![
+                            (0, Damage::Field { name: f1.name.clone(), off: f1.off, width: f1.width, be: f1.be, value: large }),
+                            (0, Damage::Field { name: f2.name.clone(), off: f2.off, width: f2.width, be: f2.be, value: v }),
+                        ],
+                        missing: None,
+                        obstruct: vec![],
+                    },
+                    &mut out,
+                );
+            }
+        }
+    }
     push(C17Doc::Patch { base: small.clone(), damage: vec![], missing: None, obstruct: vec!["mk/a".into()] }, &mut out);
     push(C17Doc::Patch { base: small.clone(), damage: vec![], missing: None, obstruct: vec!["mk".into()] }, &mut out);
     push(C17Doc::Patch { base: small.clone(), damage: vec![], missing: None, obstruct: vec!["boot".into()] }, &mut out);
